@@ -615,10 +615,20 @@ def dimsOk : CqlTy → RVal → Bool
       match t with
       | .tuple ts => dimsTuple ts fs
       | _ => true
+    | .udt _ _ fs =>
+      match t with
+      | .udt _ _ fields => dimsUdt fields fs
+      | _ => true
     | _ => true
 def dimsTuple : List CqlTy → List RVal → Bool
   | t :: ts, f :: fs => dimsOk t f && dimsTuple ts fs
   | _, _ => true
+def dimsUdt : List (String × CqlTy) → List (String × RVal) → Bool
+  | [], _ => true
+  | (n, t) :: rest, m =>
+    match lookupLast n m with
+    | none => dimsUdt rest m
+    | some v => dimsOk t v && dimsUdt rest (removeName n m)
 end
 
 mutual
